@@ -41,7 +41,9 @@ def cases(draw, rot=0):
         hexoff = draw(st.sampled_from(['zz', '12q', '0xg', 'offset', '1.5', '0x']))
     return {
         'lines': lines, 'fault': fault, 'defs': defs, 'compress': draw(st.booleans()), 'hexoff': hexoff,
-        'o': draw(st.sampled_from(['default', 'out.bin', 'build/fw.bin'])), 'l': draw(st.sampled_from([None, 'labels.txt', 'build/fw.labels'])),
+        'o': draw(st.sampled_from(['default', 'out.bin', 'build/fw.bin', 'fw.hex', 'build/OUT.HEX'])), 'l': draw(st.sampled_from([None, 'labels.txt', 'build/fw.labels'])),
+        # where the program lives relative to the working directory (output paths are relative to the working directory)
+        'src': draw(st.sampled_from(['cwd', 'cwd', 'sub', 'abs'])),
         'incfile': draw(st.booleans()), 'old': draw(st.booleans()), 'tags': prog.tags, 'verbose': draw(st.integers(0, 3)) == 0,
     }
 
@@ -60,7 +62,12 @@ def judge(c, res):
             with open(os.path.join(incdir, 'part.asm'), 'w', encoding='utf-8') as f:
                 f.write('\n'.join(lines[k:]) + '\n')
             lines = lines[:k] + ['include part.asm']
-        with open(os.path.join(work, 'main.asm'), 'w', encoding='utf-8') as f:
+        srck = c.get('src', 'cwd')
+        srcdir = {'cwd': work, 'sub': os.path.join(work, 'src'), 'abs': os.path.join(root, 'proj')}[srck]
+        os.makedirs(srcdir, exist_ok=True)
+        main_path = os.path.join(srcdir, 'main.asm')
+        main_arg = {'cwd': 'main.asm', 'sub': os.path.join('src', 'main.asm'), 'abs': main_path}[srck]
+        with open(main_path, 'w', encoding='utf-8') as f:
             f.write('\n'.join(lines) + '\n')
         o_rel = 'bb.out' if c['o'] == 'default' else c['o']
         paths = {'out': os.path.join(work, o_rel), 'hex': os.path.join(work, o_rel + '.hex')}
@@ -70,8 +77,8 @@ def judge(c, res):
             for k, p in paths.items():
                 with open(p, 'wb') as f:
                     f.write(SENTINEL[k])
-        before = snapshot(work)
-        argv = ['main.asm']
+        before = snapshot(root)
+        argv = [main_arg]
         if c['compress']:
             argv.insert(0, '-c')
         argv = ['-i', incdir] + argv
@@ -86,11 +93,11 @@ def judge(c, res):
         if c.get('verbose'):
             argv = ['-v'] + argv
         p = subprocess.run(CLI + argv, cwd=work, env=env.repo_python_env(), stdout=subprocess.PIPE, stderr=subprocess.PIPE, timeout=120)
-        after = snapshot(work)
+        after = snapshot(root)
         # reference: the API on the same input (what the bytes mean is C03-C11's business)
         inc = [incdir] + ([os.path.join(os.path.dirname(os.path.abspath(a.__file__)), 'definitions')] if c['defs'] else [])
         with env.cwd(work):
-            ref = progcheck.assemble(a, os.path.join(work, 'main.asm'), c['compress'], include_dirs=inc)
+            ref = progcheck.assemble(a, main_path, c['compress'], include_dirs=inc)
         files = {k: (open(pth, 'rb').read() if os.path.exists(pth) else None) for k, pth in paths.items()}
     payload = {'kind': 'cli', 'params': c}
     desc = 'argv=%r exit=%d stderr=%r' % (argv, p.returncode, p.stderr.decode('utf-8', 'replace')[-300:])
@@ -171,7 +178,7 @@ def run(tier):
     chk = env.Check(PROP, tier)
     chk.rule = ('Hypothesis: generated programs (valid, or with one planted fault of the C15 classes so that failures come from every pass), '
                 'optionally with an include from a -i directory and --include-definitions, x option combinations (-c, -v, -o default/'
-                'file/subdir, -l, --hex-offset legal 0..0xfff00000 or malformed), run as a SUBPROCESS of the real entry point in a scratch '
+                'file/subdir/a name that itself ends in .hex, program in the working directory / a subdirectory / elsewhere by absolute path, -l, --hex-offset legal 0..0xfff00000 or malformed), run as a SUBPROCESS of the real entry point in a scratch '
                 'directory that (in half the cases) already holds older -o, -l and .hex files. success: exit 0, -o bytes == assemble(), -l '
                 'parses to exactly the label table, .hex parsed by an own Intel HEX reader == bytes at the offset; failure: exit != 0 and the '
                 'directory byte-identical to before. non-trivial = failing run with pre-existing files, or success with --hex-offset; '
